@@ -49,12 +49,13 @@ pub struct Net {
     pub fail_at: Option<usize>,
     pub fail_persistent: bool,
     pub fail_kind: io::ErrorKind,
+    pub write_cap: usize,
 }
 #[derive(Clone)]
 pub struct Shared(pub Rc<RefCell<Net>>);
 impl Shared {
     pub fn new(input: Vec<u8>, chunks: Vec<usize>) -> Shared {
-        Shared(Rc::new(RefCell::new(Net { input, rpos: 0, chunks, ci: 0, out: vec![], flushed: 0, waited_unflushed: vec![], reads: 0, ops: 0, fail_at: None, fail_persistent: false, fail_kind: io::ErrorKind::BrokenPipe })))
+        Shared(Rc::new(RefCell::new(Net { input, rpos: 0, chunks, ci: 0, out: vec![], flushed: 0, waited_unflushed: vec![], reads: 0, ops: 0, fail_at: None, fail_persistent: false, fail_kind: io::ErrorKind::BrokenPipe, write_cap: usize::MAX })))
     }
     fn op(&self) -> io::Result<()> {
         let mut n = self.0.borrow_mut();
@@ -88,8 +89,10 @@ impl Read for Shared {
 impl Write for Shared {
     fn write(&mut self, buf: &[u8]) -> io::Result<usize> {
         self.op()?;
-        self.0.borrow_mut().out.extend_from_slice(buf);
-        Ok(buf.len())
+        let mut n = self.0.borrow_mut();
+        let k = buf.len().min(n.write_cap);
+        n.out.extend_from_slice(&buf[..k]);
+        Ok(k)
     }
     fn flush(&mut self) -> io::Result<()> {
         self.op()?;
@@ -392,6 +395,34 @@ impl TShim {
                 w.write_row(vec!["y"])?;
                 w.finish_error(ErrorKind::ER_NO, &b"late".to_vec())
             }
+            "okerr" => {
+                let r = results.complete_one(1, 2)?;
+                r.error(ErrorKind::ER_NO, &b"after ok"[..])
+            }
+            "rserr" => {
+                let cols = vec![vcol("a", ColumnType::MYSQL_TYPE_VAR_STRING, ColumnFlags::empty())];
+                let mut w = results.start(&cols)?;
+                w.write_row(vec!["x"])?;
+                let r = w.finish_one()?;
+                r.error(ErrorKind::ER_NO, &b"after rows"[..])
+            }
+            "big2" => {
+                let (n1, n2) = (num(parts[1]) as usize, num(parts[2]) as usize);
+                let cols = vec![vcol("a", ColumnType::MYSQL_TYPE_BLOB, ColumnFlags::empty()), vcol("b", ColumnType::MYSQL_TYPE_BLOB, ColumnFlags::empty())];
+                let mut w = results.start(&cols)?;
+                let v1: Vec<u8> = (0..n1).map(|k| (k % 251) as u8).collect();
+                let v2: Vec<u8> = (0..n2).map(|k| (k % 13) as u8 + 100).collect();
+                w.write_col(&v1[..])?;
+                w.write_col(&v2[..])?;
+                w.end_row()?;
+                w.finish()
+            }
+            "namelen" => {
+                let nl = num(parts[1]) as usize;
+                let cols = vec![Column { table: "T".repeat(nl), column: "c".repeat(nl), coltype: ColumnType::MYSQL_TYPE_LONG, colflags: ColumnFlags::empty() }];
+                let w = results.start(&cols)?;
+                w.finish()
+            }
             "zero" => {
                 let mut w = results.start(&[])?;
                 for _ in 0..num(parts[1]) { w.write_row(vec![1u8])?; }
@@ -533,6 +564,22 @@ pub fn converse_k(hs: Vec<u8>, cmds: &[(Vec<u8>, u8)], chunks: Vec<usize>, rejec
     let nn = notes.borrow().clone();
     Run { result, panicked, log: l, notes: nn, out, net }
 }
+pub fn converse_w(hs: Vec<u8>, cmds: &[(Vec<u8>, u8)], cap: usize) -> Run {
+    let mut input = frame(&hs, 1);
+    for (c, s) in cmds { input.extend_from_slice(&frame(c, *s)); }
+    let net = Shared::new(input, vec![]);
+    net.0.borrow_mut().write_cap = cap;
+    let log = Rc::new(RefCell::new(vec![]));
+    let notes = Rc::new(RefCell::new(vec![]));
+    let shim = TShim { log: log.clone(), reject: false, notes: notes.clone() };
+    let n2 = net.clone();
+    let r = std::panic::catch_unwind(std::panic::AssertUnwindSafe(move || MysqlIntermediary::run_on(shim, n2)));
+    let out = net.0.borrow().out.clone();
+    let (result, panicked) = match r { Ok(Ok(())) => (Ok(()), false), Ok(Err(e)) => (Err(e.0), false), Err(_) => (Err("PANIC".into()), true) };
+    let l = log.borrow().clone();
+    let nn = notes.borrow().clone();
+    Run { result, panicked, log: l, notes: nn, out, net }
+}
 /// server output as logical messages, after checking framing (C04) -- greeting and auth OK stripped
 pub fn replies(run: &Run) -> Vec<(u8, usize, Vec<u8>)> {
     let raw = raw_packets(&run.out).expect("[C04.w.frame] server output does not end on a packet boundary");
@@ -607,7 +654,7 @@ fn one(q: &[u8]) -> (Run, Vec<(u8, usize, Vec<u8>)>) {
 #[test]
 fn w_c03_responses() {
     let mut cases = 0;
-    for q in ["ok:5:6", "err:1064:bad", "rs:1:0", "rs:3:4", "multi", "rowserr", "zero:0", "zero:3", "droprw", "dropqrw", "USE x", "SELECT @@foo", "SELECT @@max_allowed_packet"] {
+    for q in ["ok:5:6", "err:1064:bad", "rs:1:0", "rs:3:4", "multi", "rowserr", "okerr", "rserr", "zero:0", "zero:3", "droprw", "dropqrw", "USE x", "SELECT @@foo", "SELECT @@max_allowed_packet"] {
         let (r, m) = one(q.as_bytes());
         assert!(r.result.is_ok(), "[C03.w.run] {} failed: {:?}", q, r.result);
         let mut i = 1; // m[0] is the auth OK
@@ -621,6 +668,8 @@ fn w_c03_responses() {
         }
         match q {
             "multi" => assert!(units.len() == 3 && matches!(&units[1], Resp::Ok { rows: 3, id: 4, .. }), "[C03.w.multi] chained resultsets not delivered in order"),
+            "okerr" => assert!(units.len() == 2 && matches!(&units[0], Resp::Ok { rows: 1, id: 2, .. }) && matches!(&units[1], Resp::Err { code: 1002, .. }), "[C03.w.chainerr] completion followed by an error not delivered as OK(more) + ERR: {:?}", units),
+            "rserr" => assert!(units.len() == 2 && matches!(&units[0], Resp::Rs { rows, .. } if rows.len() == 1) && matches!(&units[1], Resp::Err { code: 1002, .. }), "[C03.w.chainerr] resultset followed by an error not delivered as resultset(more) + ERR: {:?}", units),
             "rowserr" => assert!(matches!(&units[0], Resp::RsErr { rows, code: 1002, msg, .. } if rows.len() == 2 && msg == b"late"), "[C13.w.rows] error after rows not delivered: {:?}", units),
             "zero:3" => assert!(units == vec![Resp::Ok { rows: 3, id: 0, status: 0 }], "[C14.w.zero] zero-column resultset must be OK(rows ended): {:?}", units),
             "droprw" => assert!(matches!(&units[0], Resp::Rs { rows, .. } if rows.len() == 1), "[C03.w.drop] dropped row writer must end its row and resultset"),
@@ -677,6 +726,31 @@ fn w_c04_big() {
             assert!(i == m.len() && ping.len() == 1, "[C04.w.boundary] stray packets after a big row");
             cases += 1;
         }
+    }
+    for delta in [12i64, 9, 8, 7, 6, 5, 4, 3, 2, 1, 0, -1] {
+        // row = lenenc(n1) (4 bytes) + v1 + lenenc(3) (1 byte) + "abc": the write boundary after v1 lies `delta - 4` bytes before MAXP
+        let n1 = MAXP as i64 - delta;
+        let (r, m) = one(format!("big2:{}:3", n1).as_bytes());
+        assert!(r.result.is_ok(), "[C04.w.run] two-column big row failed: {:?}", r.result);
+        let mut i = 1;
+        let units = parse_response(&m, &mut i).unwrap_or_else(|e| panic!("[C04.w.reassembly] row written as {} + 3 bytes not conformant after reassembly: {}", n1, e));
+        if let Resp::Rs { rows, .. } = &units[0] {
+            assert!(rows.len() == 1, "[C04.w.split] one logical row arrived as {} messages (first value {} bytes)", rows.len(), n1);
+            let cells = text_row(&rows[0], 2).unwrap_or_else(|e| panic!("[C04.w.reassembly] big row malformed: {}", e));
+            assert!(cells[0].as_ref().unwrap().len() as i64 == n1 && cells[1].as_ref().unwrap() == &vec![100u8, 101, 102], "[C04.w.intact] two-column row with a {}-byte first value did not arrive intact", n1);
+        } else { panic!("[C04.w.reassembly] not a resultset") }
+        let ping = parse_response(&m, &mut i).expect("[C04.w.boundary] reply after a big row not conformant");
+        assert!(i == m.len() && ping.len() == 1, "[C04.w.boundary] stray packets after a big two-column row");
+        cases += 1;
+    }
+    // a transport that accepts only a few bytes per write call must not change what is sent
+    let cmds: Vec<(Vec<u8>, u8)> = vec![(c_query(b"rs:2:3"), 0), (c_query(b"big:70000"), 0), (c_query(b"ok:1:1"), 0), quit()];
+    let full = converse(hs41(b"u", 0), &cmds, vec![], false, None, None);
+    for cap in [1usize, 7, 4096, 65536] {
+        let r = converse_w(hs41(b"u", 0), &cmds, cap);
+        assert!(r.result.is_ok(), "[C04.w.shortwrite] conversation over a transport writing at most {} bytes per call failed: {:?}", cap, r.result);
+        assert!(r.out == full.out, "[C04.w.shortwrite] bytes on the wire differ when the transport accepts at most {} bytes per write ({} vs {} bytes)", cap, r.out.len(), full.out.len());
+        cases += 1;
     }
     println!("VERIF-NATIVE w_c04_big cases={} nontrivial={}", cases, cases);
 }
@@ -802,6 +876,16 @@ fn w_c09_meta() {
                 assert!(c.ty == 3 && c.flags == wf, "[C09.w.flags] type/flags of column {} arrived as {}/{:#x}, declared 3/{:#x}", j, c.ty, c.flags, wf);
                 assert!(c.fixed[0] == 33 && c.fixed[1] == 0 && c.fixed[9] == 0, "[C09.w.fixed] fixed fields of the column definition differ");
             }
+        } else { panic!("[C09.w.grammar] not a resultset") }
+        cases += 1;
+    }
+    for nl in [0usize, 1, 250, 251, 252, 253, 255, 256, 65535, 65536] {
+        let (r, m) = one(format!("namelen:{}", nl).as_bytes());
+        assert!(r.result.is_ok(), "[C09.w.run] failed: {:?}", r.result);
+        let mut i = 1;
+        let units = parse_response(&m, &mut i).unwrap_or_else(|e| panic!("[C09.w.names] header with {}-byte names not conformant: {}", nl, e));
+        if let Resp::Rs { cols, .. } = &units[0] {
+            assert!(cols[0].table == "T".repeat(nl).into_bytes() && cols[0].name == "c".repeat(nl).into_bytes(), "[C09.w.names] {}-byte table/column names arrived changed", nl);
         } else { panic!("[C09.w.grammar] not a resultset") }
         cases += 1;
     }
